@@ -638,3 +638,82 @@ def policy_hooks_total(ctx, rule):
                    ctx.loc(f, c))
         n += 1
     return n
+
+
+def refresh_covers_unfinished(ctx, rule):
+    """task_handler._refresh_task_state is a one-shot wake-up: nothing
+    schedules it again after resume.  It therefore has to act for every
+    unfinished workflow state - PAUSED included - and for every waiting
+    state of the task; a refresh that returns early for a paused workflow is
+    a lost wake-up (the join stays WAITING after resume)."""
+    prog, sd = ctx.prog, ctx.sd
+    f = prog.func('mistral.engine.task_handler._refresh_task_state')
+    cfg = ctx.cfg(f)
+    done = sd.pred_set('is_completed')
+    IN, keys = sd.analyze(
+        cfg, f, [('wf_ex.state', sd.state_domain),
+                 ('task_ex', (None, OBJ)),
+                 ('task_ex.state', sd.state_domain)],
+        kill=lambda c: ())
+    sites = U.calls_in(cfg, 'get_logical_task_state')
+    if not sites:
+        raise AnalysisError('_refresh_task_state no longer asks the '
+                            'controller for the logical state')
+    for n, c in sites:
+        wvals = {v[0] for v in IN[n.id]}
+        missing = set(sd.ALL) - done - wvals
+        rule.check(not missing,
+                   ctx.construct(f, extra='every unfinished workflow state'),
+                   'a scheduled join refresh does nothing while the workflow '
+                   'is %s, and nothing re-schedules it: the join stays '
+                   'WAITING after resume' % sorted(missing), ctx.loc(f, c))
+        tvals = {v[2] for v in IN[n.id] if v[1] is not None}
+        need = {'WAITING'}
+        rule.check(need <= tvals,
+                   ctx.construct(f, extra='every waiting task'),
+                   'the refresh does not act on WAITING tasks (%s)'
+                   % sorted(map(str, tvals)), ctx.loc(f, c))
+
+
+LOCAL_TIME = {'datetime.now', 'datetime.datetime.now', 'datetime.today',
+              'datetime.datetime.today', 'datetime.fromtimestamp',
+              'datetime.datetime.fromtimestamp', 'time.localtime',
+              'date.today', 'datetime.date.today'}
+UTC_TIME = {'timeutils.utcnow', 'utils.utc_now_sec', 'datetime.utcnow',
+            'datetime.datetime.utcnow', 'utc_now_sec'}
+
+
+def utc_time_sources(ctx, rule, prefixes, floor):
+    """Timestamps in the database are UTC (column defaults and every writer
+    use timeutils.utcnow / utc_now_sec).  A threshold computed from the
+    local wall clock is off by the host's UTC offset: jobs run early / late,
+    executions younger than the configured age are deleted.  No local-time
+    source may be called (without an explicit time zone) in the modules that
+    compare against stored timestamps."""
+    prog = ctx.prog
+    n_utc = 0
+    for q, f in sorted(prog.funcs.items()):
+        if not any(f.module == p or f.module.startswith(p + '.')
+                   for p in prefixes):
+            continue
+        if f.parent is not None:
+            continue
+        for c in ast.walk(f.node):
+            if not isinstance(c, ast.Call):
+                continue
+            d = dotted(c.func) or ''
+            if d in UTC_TIME or d.endswith('.utcnow') or \
+                    d.endswith('.utc_now_sec'):
+                n_utc += 1
+                continue
+            if d in LOCAL_TIME and not c.args and not c.keywords:
+                rule.fail(ctx.construct(f, c, extra='local time'),
+                          '%s() is the local wall clock; stored timestamps '
+                          'are UTC, so every comparison made with it is off '
+                          'by the UTC offset of the host' % d, ctx.loc(f, c))
+    if n_utc < floor:
+        raise AnalysisError('utc sources: only %d UTC time reads found in %s'
+                            % (n_utc, prefixes))
+    rule.ok('utc time sources :: %s' % ','.join(prefixes),
+            '%d UTC reads, no local-time read' % n_utc)
+    return n_utc
